@@ -104,7 +104,7 @@ impl Params {
                 writers: 0,
                 rounds: 1,
                 rereads: 1,
-                grow: false,
+                grow: r.chance(1, 2),
                 openers: r.range(2, 3) as u32,
                 preexisting: r.chance(1, 2),
                 hold: r.chance(1, 2),
@@ -454,6 +454,7 @@ fn scenario_c13(p: Params, path: String) {
         let path = path.clone();
         let (inside, closed) = (inside.clone(), closed.clone());
         let hold = p.hold;
+        let grow = p.grow;
         hs.push(shuttle::thread::spawn(move || {
             let before: Vec<u32> = closed.lock().unwrap().clone();
             let db = match catch(|| OpenOptions::new().pagesize(1024).num_pages(8).open(&path)) {
@@ -480,7 +481,14 @@ fn scenario_c13(p: Params, path: String) {
                     yield_point();
                 }
                 let tx = db.tx(true).map_err(|e| e.to_string())?;
-                tx.get_or_create_bucket("markers").map_err(|e| e.to_string())?.put(format!("opener{}", o), vec![o as u8; 16]).map_err(|e| e.to_string())?;
+                let mb = tx.get_or_create_bucket("markers").map_err(|e| e.to_string())?;
+                mb.put(format!("opener{}", o), vec![o as u8; 16]).map_err(|e| e.to_string())?;
+                if grow && o == 0 {
+                    // enough to make this commit extend the file while others may be waiting
+                    mb.put("ballast", vec![0x42u8; 200_000]).map_err(|e| e.to_string())?;
+                    probe("holder_grew_the_file");
+                }
+                drop(mb);
                 tx.commit().map_err(|e| e.to_string())
             });
             match r {
